@@ -140,6 +140,9 @@ def server_case(rng, stats, length, pid):
         return rng.choice([999, M32 - 1, 0])
 
     def feed(data):
+        if pid == "C03" and data and rng.chance(1, 5):
+            data = GF.mutate_stream(rng, data)      # the stream may desynchronise from here on: that is the point
+            bump(stats, "mutated_inputs")
         ops.append(f"srv.in {rand_now(rng, st)} {part(rng, len(data))} {hexb(data)}")
 
     # mostly-valid prefix of random depth, so that walks reach the deep states (connected, publishing, playing)
@@ -289,9 +292,9 @@ def server_case(rng, stats, length, pid):
             feed(data)
         else:
             feed(b"")
-        if pid in ("C18", "C03") and rng.chance(1, 6):
+        if pid == "C18" and rng.chance(1, 6):
             ops.append(f"!sess.decodable s {rng.below(1 << 30)}")
-    if pid in ("C18", "C03"):
+    if pid == "C18":
         ops.append(f"!sess.decodable s {rng.below(1 << 30)}")
         ops.append(f"!sess.decodable s {rng.below(1 << 30)}")
     return ops
@@ -315,6 +318,9 @@ def client_case(rng, stats, length, pid):
     ops = [f"cli.new {cs} {rng.choice([1, 100, 2500000, M32 - 1])} {rng.choice([0, 2000, M32 - 1])} {hexb(rng.choice([b'WIN 23,0,0,207', b'']))} {rng.choice(['_', hexb(b'rtmp://h/app')])}"]
 
     def feed(data):
+        if pid == "C03" and data and rng.chance(1, 5):
+            data = GF.mutate_stream(rng, data)
+            bump(stats, "mutated_inputs")
         ops.append(f"cli.in {rand_now(rng, st)} {part(rng, len(data))} {hexb(data)}")
 
     def pick_tid():
@@ -454,9 +460,9 @@ def client_case(rng, stats, length, pid):
                 feed(b"")
         else:                   # two messages in one call, the second one failing (K2 shape)
             feed(ps.msg(4, 0, (6).to_bytes(2, "big") + (9).to_bytes(4, "big")) + ps.msg(20, 0, cmd_body("onStatus", 0.0, ("z",), [])))
-        if pid in ("C18", "C03") and rng.chance(1, 6):
+        if pid == "C18" and rng.chance(1, 6):
             ops.append(f"!sess.decodable c {rng.below(1 << 30)}")
-    if pid in ("C18", "C03"):
+    if pid == "C18":
         ops.append(f"!sess.decodable c {rng.below(1 << 30)}")
         ops.append(f"!sess.decodable c {rng.below(1 << 30)}")
     return ops
